@@ -19,6 +19,11 @@ def freeze_locals():
     cfgs = list(facts.CONFIGS)
     crates, h, n = facts.load(cfgs)
     out, conflicts = {}, []
+    funcs = {}
+    for (cname, tag), cr in sorted(crates.items()):
+        funcs.setdefault(cname, set()).update(p_ for p_, b_ in cr.hir.items() if b_.get("kind") in ("Fn", "AssocFn"))
+    json.dump({k: sorted(v) for k, v in funcs.items()}, open(os.path.join(HERE, "tables", "functions.json"), "w"), indent=0)
+    print("wrote tables/functions.json", {k: len(v) for k, v in funcs.items()})
     for (cname, tag), cr in sorted(crates.items()):
         for path, b in cr.hir.items():
             if b.get("body") is None:
